@@ -36,6 +36,8 @@ def main():
     finally:
         subprocess.run(["git", "-C", REPO, "checkout", "--", "."])
         shutil.rmtree(ev, ignore_errors=True); shutil.copytree(bak, ev)
+        # never leave a harness binary built against the mutant behind
+        subprocess.run(["go", "build", "-tags", "verif", "-o", os.path.join(VERIF, ".build", "kdrive"), "./cmd/kdrive"], cwd=os.path.join(VERIF, "harness"), env=GOENV)
     return 0
 
 if __name__ == "__main__":
